@@ -1,6 +1,6 @@
 (* C10  Override keys replace instead of merging.  Statements only. *)
 From RV Require Import Model.Mapping Model.Yaml Model.Interp Model.Run Spec.DeepMerge Proofs.MappingFacts Proofs.DeepMergeFacts
-     Proofs.Refinement.
+     Proofs.Refinement Proofs.WfFacts Proofs.PathFacts Proofs.Twin Proofs.Unrender Proofs.Inline Proofs.TwinStack.
 
 (** An override (marker ~ or the override flag carried by a merged mapping's entry) on a
     present, non-constant key replaces the value in place: whatever earlier layers contributed
@@ -97,3 +97,45 @@ Example C10_nested_override_nonvacuous :
   Forall layer_ok [l1; l2; l3] /\
   deep_merge 6 [l1; l2; l3] = SOk (VMap [(VStr "a", VMap [(VStr "k", VLit "s", false, false)], false, false)]).
 Proof. cbn zeta. split; [prove_layer_ok | vm_compute; reflexivity]. Qed.
+
+(** "... including overrides delivered inside referenced mappings" (through C04, Proofs/TwinStack.v):
+    for a stack whose layers contain references, write the stack with every reference replaced by
+    the YAML of what it renders to -- an override key of a referenced mapping is spelled `~k` there.
+    If the stack renders, its value is the specification's value for that inlined stack: the
+    delivered override replaces what earlier layers contributed, exactly like a written one. *)
+Theorem C10_overrides_delivered_by_references_replace_like_written_ones :
+  forall f F ys ys' m r,
+    Forall clean_layer ys -> ys' <> [] -> Forall layer_ok ys' ->
+    merge_layers_try ys = Ok m -> Forall2 (ytw m) ys ys' ->
+    render_with_self F (VMap m) = Ok r ->
+    match deep_merge (S f) ys' with
+    | SOk v => unflag r = v
+    | SFuel => True
+    | SErr _ => False
+    end.
+Proof. exact stack_with_references_is_the_deep_merge_of_its_inlined_twin. Qed.
+Eval cbv in "ASSUMPTIONS-OF C10_overrides_delivered_by_references_replace_like_written_ones"%string. Print Assumptions C10_overrides_delivered_by_references_replace_like_written_ones.
+
+(** non-vacuity: `target` holds b as a mapping; a later layer merges the referenced template
+    {~b: "s"} over it; the member is replaced by the string, as if `~b: s` had been written there *)
+Example C10_delivered_override_nonvacuous :
+  let l1 := YMap [(YStr "tmpl", YMap [(YStr "~b", YStr "s")]);
+                  (YStr "target", YMap [(YStr "b", YMap [(YStr "x", YNum (NInt 1%Z))]); (YStr "o", YNum (NInt 0%Z))])] in
+  let ys := [l1; YMap [(YStr "target", YStr "${tmpl}")]] in
+  let ys' := [l1; YMap [(YStr "target", YMap [(YStr "~b", YStr "s")])]] in
+  Forall clean_layer ys /\ Forall layer_ok ys' /\
+  exists m r, merge_layers_try ys = Ok m /\ Forall2 (ytw m) ys ys' /\ render_with_self 60 (VMap m) = Ok r /\
+              deep_merge 10 ys' = SOk (unflag r) /\
+              lookup ["target"; "b"] (unflag r) = Some (VLit "s").
+Proof.
+  cbn zeta. split; [prove_layer_ok|]. split; [prove_layer_ok|].
+  eexists. eexists. split; [vm_compute; reflexivity|]. split.
+  - constructor; [apply ytw_refl|]. constructor; [|constructor].
+    apply ytw_map_iff. eexists. split; [reflexivity|]. constructor; [|constructor]. split; [reflexivity|]. cbn [snd].
+    right. eexists. eexists. split; [vm_compute; reflexivity|]. split.
+    + eapply (denotes_of_render _ _ "${tmpl}" 40 st0). vm_compute. reflexivity.
+    + apply lw_map_iff. eexists. split; [reflexivity|]. constructor; [|constructor].
+      unfold lwe. cbn [e_key e_val e_const e_over fst snd]. repeat split. right. split; reflexivity.
+  - split; [vm_compute; reflexivity|]. split; vm_compute; reflexivity.
+  Unshelve. cbn. repeat split; repeat constructor; cbn; intuition discriminate.
+Qed.
